@@ -316,7 +316,8 @@ Proof.
   - destruct parses; [|exact HS]. nred. repeat split; intros; try assumption; try reflexivity; auto.
   - destruct parses; [|exact HS]. nred. repeat split; intros; try assumption; try reflexivity; auto.
   - destruct parses; [|exact HS]. nred. repeat split; intros; try assumption; try reflexivity; auto.
-  - nred. repeat split; intros; try assumption; try reflexivity; auto.
+  - destruct (MAX_INV <=? ninv (nmem s)); [exact HS|].
+    nred. repeat split; intros; try assumption; try reflexivity; auto.
   - exact HS.
   - nred. repeat split; intros; try reflexivity; auto.
 Qed.
